@@ -116,6 +116,7 @@ def sFastAppend : Bytes := [70, 97, 115, 116, 65, 112, 112, 101, 110, 100]  -- "
 def sFastRead : Bytes := [70, 97, 115, 116, 82, 101, 97, 100]  -- "FastRead"
 def sUnusedProt : Bytes := [84, 104, 114, 105, 102, 116, 71, 111, 85, 110, 117, 115, 101, 100, 80, 114, 111, 116, 101, 99, 116, 105, 111, 110]  -- "ThriftGoUnusedProtection"
 def sClientU : Bytes := [67, 108, 105, 101, 110, 116, 95]  -- "Client_"
+def sClientL : Bytes := [99, 108, 105, 101, 110, 116, 95]  -- "client_"
 def sC : Bytes := [99]  -- "c"
 def sProcessorMap : Bytes := [112, 114, 111, 99, 101, 115, 115, 111, 114, 77, 97, 112]  -- "processorMap"
 def sHandler : Bytes := [104, 97, 110, 100, 108, 101, 114]  -- "handler"
@@ -277,6 +278,7 @@ structure Feat where
   halfway : Bool := false       -- field_mask_halfway     (minted only)
   fastgo : Bool := false        -- backend fastgo         (minted only)
   adaptor : Bool := false       -- apache_adaptor: Read/Write delegate to the adaptor, no ReadField<id>/writeField<id> (declared only)
+  svcV2 : Bool := false         -- buildService reserves `Client_` (the accessor of the client template) among the function names
   resV2 : Bool := false         -- buildStructLike reserves EVERY method the templates declare (InitDefault, CountSetFields<T>,
                                 -- field-mask accessors, the methods of a backend on top: fastgo); regenerated from the source
   deriving Repr
@@ -446,11 +448,18 @@ def fnTypeLoop (ft : Feat) (ident : Bytes → Bytes) (keywords : List Bytes) (sv
     let (g3, rest) ← fnTypeLoop ft ident keywords svcRaw g2 r
     pure (g3, one :: rest)
 
+/-- the service's namespace before the function names: empty, or (svcV2) with `Client_` reserved under `$client_`
+    (`MustReserve` on an empty namespace cannot fail) -/
+def svcScope0 (ft : Feat) : NS :=
+  if ft.svcV2 then { n2i := [(sClientU, dollar sClientL)], i2n := [(dollar sClientL, sClientU)] } else NS.empty
+
+example : NS.empty.mustReserve sClientU (dollar sClientL) = .ok (svcScope0 { svcV2 := true }) := rfl
+
 def buildService (ft : Feat) (ident : Bytes → Bytes) (keywords : List Bytes) (g : NS) (v : Svc) :
     Except Err (NS × SvcNames) := do
   let sn := scopeIdentify ft ident v.name
   let (sn', g1) ← g.add underscore sn v.name
-  let fnNames ← fnNameLoop ft ident NS.empty v.fns
+  let fnNames ← fnNameLoop ft ident (svcScope0 ft) v.fns
   let (g2, fns) ← fnTypeLoop ft ident keywords v.name g1 (v.fns.zip fnNames)
   let g3 ← g2.mustReserve (sn' ++ sClient) (dollar (tClient ++ v.name))
   let g4 ← g3.mustReserve (sn' ++ sProcessor) (dollar (tProcessor ++ v.name))
@@ -652,6 +661,13 @@ def ImportMgr.resolve (im : ImportMgr) : Table :=
   im.ns.n2i.filterMap fun (alias, path) =>
     if im.notUsed.contains alias then none
     else if alias = path || isSuffix (47 :: alias) path then some (path, []) else some (path, alias)
+
+/-- `mentionsPackage` filter of renderByTemplate: an import survives iff the rendered code mentions its local name
+    (`quals`: the package qualifiers that occur in the code). -/
+def filterMentioned (quals : List Bytes) (imports : Table) : Table :=
+  imports.filter fun (path, alias) =>
+    let name := if alias = [] then ((path.reverse.takeWhile (· ≠ 47)).reverse) else alias
+    quals.contains name
 
 /-- `Scope.include` for the includes of a file: (package, path, same go namespace as the root) -/
 def includeLoop : ImportMgr → List (Bytes × Bytes × Bool) → Except Err (ImportMgr × List Bytes)
